@@ -91,6 +91,19 @@ def _work(args):
                 cur.pop(payload[-1], None)
                 with open(cp, "w") as f:
                     json.dump(d, f)
+            elif kind == "local-set":
+                F.run_scan(root, [])
+                with open(cp) as f:
+                    d = json.load(f)
+                keys, val = payload
+                curs = [d]
+                for k in keys[:-1]:
+                    curs = [v for c in curs if isinstance(c, dict) for v in (c.values() if k == "*" else [c.get(k)]) if v is not None]
+                for c in curs:
+                    if isinstance(c, dict):
+                        c[keys[-1]] = val
+                with open(cp, "w") as f:
+                    json.dump(d, f)
             elif kind == "file-instead-of-dir":
                 pass
             probs = []
@@ -164,6 +177,17 @@ def run(tier, seed, replay=None):
                     faults.append((name, "bytes", text.encode("utf8", "surrogatepass")))
             for keys in (("timestamp",), ("uuid",), ("codebase", "tree"), ("codebase", "totals"), ("root",), ("version",), ("codebase", "files")):
                 faults.append((f"own cache with key {'/'.join(keys)} removed", "local-remove", keys))
+            # the tree's own cache (same root, same checksums: "up to date") with one field of every file entry, or one
+            # top-level field, replaced by a value of the right type but the wrong shape — also fields the reader is not
+            # known to use today (seeded change C10-10: a stored per-file profile of fewer than four numbers)
+            for field in ("profile", "measurements", "loc", "language", "checksum"):
+                for val in ([], [0, 0, 0], [1], [0] * 9, [[0, 0, 0, 0]], 0, -1, "", {}, None, True):
+                    if (field, val) in (("measurements", []), ("loc", 0), ("loc", -1), ("language", "")):
+                        continue          # a well-formed entry that merely says something else: not recognisable as damage
+                    faults.append((f"own cache with {field} = {json.dumps(val)} in every file entry", "local-set", (("codebase", "files", "*", field), val)))
+            for keys in (("codebase", "tree"), ("codebase", "totals"), ("timestamp",), ("uuid",)):
+                for val in ([], {}, "", 0, None, {"./": {"entries": [], "profile": [0, 0]}}):
+                    faults.append((f"own cache with {'/'.join(keys)} = {json.dumps(val)}", "local-set", (keys, val)))
             faults += [("cache directory without file", "dir-without-file", b""),
                        ("cache file without marker files", "dir-without-markers", data),
                        ("garbage without marker files", "dir-without-markers", b"{\"version\": ")]
